@@ -213,6 +213,13 @@ def classify(prop, jobs, wd, out=None, all_tags=None):
                 continue
             out.obligations += 1
             sample['assertions'][d[:110]] = st
+            if d.startswith(prop + '(EXISTS)'):
+                # existential obligation: the solver must FIND a witness, i.e. the negated assertion must fail
+                if st == 'FAILURE':
+                    out.discharged += 1
+                elif st == 'SUCCESS':
+                    candidates.append((pid, pr))
+                continue
             if st == 'SUCCESS':
                 out.discharged += 1
             elif st == 'FAILURE':
